@@ -1,6 +1,6 @@
 import OtelVerif.Common.Line
 import OtelVerif.Model.C19
-import OtelVerif.Model.C19Exp
+import OtelVerif.Drivers.C19Exp
 /-! driver for C19: models `c19-recv` (receiverhelper.ObsReport), `c19-scrape` (scraperhelper controllers),
 `c19-proc` (processorhelper); the exporter handler is added to the list in `main`.
 
@@ -78,16 +78,37 @@ structure RS where
   pending : Option (Nat × RecvOp) := none
   impl : List (List (RecvOp × Recv)) := []     -- per receiver, oldest first
   bad : Option String := none
+  -- concurrent mode (`op cend …` announced for every goroutine, then `op sync`): only the counters after the batch are seen
+  conc : Bool := false
+  batch : List (List RecvOp) := []             -- per receiver: operations of the running batch
+  pendingSync : Bool := false
+  last : List Recv := []                       -- per receiver: counters the implementation showed at the last sync
+  notes : List String := []
 
 def recvHandler : Handler RS where
   init := {}
   onCase := fun s toks =>
     match kvNat toks "inst" with
-    | some k => { s with model := List.replicate k {}, impl := List.replicate k [] }
+    | some k => { s with model := List.replicate k {}, impl := List.replicate k [], batch := List.replicate k [], last := List.replicate k {} }
     | none => { s with bad := some "case line without inst=" }
   onOp := fun s toks =>
     match toks with
+    | "cend" :: rest =>
+      -- an operation some goroutine is about to perform concurrently with others: applied to the model (the final
+      -- counters do not depend on the order, `C19_receiver_perm`), nothing is printed until `sync`
+      match kvNat rest "i", (kv rest "sig").bind parseSig, kvNat rest "n", kvNat rest "err" with
+      | some i, some sig, some n, some e =>
+        match s.model[i]? with
+        | some c =>
+          let op : RecvOp := ⟨sig, n, e = 1⟩
+          ({ s with model := setAt s.model i (c.endOp op), conc := true, batch := setAt s.batch i (s.batch.getD i [] ++ [op]) }, [])
+        | none => (s, ["obs bad-op"])
+      | _, _, _, _ => (s, ["obs bad-op"])
+    | ["sync"] =>
+      let cnt := " ".intercalate ((List.range s.model.length).map (fun j => s!"{j}:{showRecv (s.model.getD j {})}"))
+      ({ s with pendingSync := true }, [s!"obs cnt {cnt}", s!"obs spans {(s.batch.map List.length).sum}"])
     | "end" :: rest =>
+      if s.conc then (s, ["obs bad-op"]) else      -- a case is either sequential or concurrent
       match kvNat rest "i", (kv rest "sig").bind parseSig, kvNat rest "n", kvNat rest "err" with
       | some i, some sig, some n, some e =>
         match s.model[i]? with
@@ -104,14 +125,28 @@ def recvHandler : Handler RS where
   onObs := fun s toks =>
     match toks with
     | _ :: "cnt" :: rest =>
+      let snaps := rest.mapM (fun tok => match tok.splitOn ":" with
+        | [j, tr] => match j.toNat?, parseRecv tr with
+          | some j, some r => some (j, r)
+          | _, _ => none
+        | _ => none)
+      if s.pendingSync then
+        match snaps with
+        | none => { s with bad := some "unparsable counters", pendingSync := false }
+        | some snaps =>
+          if snaps.map (·.1) != List.range s.last.length then { s with bad := some "receiver list mismatch", pendingSync := false } else
+          -- the property on the batch: every receiver's counters grew by exactly what its operations offered, split by result
+          let fails := (List.range s.last.length).filterMap (fun j =>
+            let before := s.last.getD j {}
+            let after := (snaps.lookup j).getD {}
+            let ops := s.batch.getD j []
+            if recvBatchB before after ops then none
+            else some s!"sig=C19/receiver/concurrent-total-mismatch receiver={j} ops={ops.length} before={showRecv before} after={showRecv after} expected={showRecv (before.run ops)}")
+          { s with notes := s.notes ++ fails, last := snaps.map (·.2), batch := s.batch.map (fun _ => []), pendingSync := false }
+      else
       match s.pending with
       | none => { s with bad := some "counters without an operation" }
       | some (i, op) =>
-        let snaps := rest.mapM (fun tok => match tok.splitOn ":" with
-          | [j, tr] => match j.toNat?, parseRecv tr with
-            | some j, some r => some (j, r)
-            | _, _ => none
-          | _ => none)
         match snaps with
         | none => { s with bad := some "unparsable counters", pending := none }
         | some snaps =>
@@ -129,7 +164,7 @@ def recvHandler : Handler RS where
     match s.bad with
     | some b => [s!"prop recv=FAIL sig=C19/receiver/unparsable {b}"]
     | none =>
-      match (s.impl.flatMap (judgeRecv "receiver" false "recv")) with
+      match (s.impl.flatMap (judgeRecv "receiver" false "recv")) ++ s.notes.map (fun n => s!"prop recv=FAIL {n}") with
       | [] => ["prop recv=ok"]
       | f :: _ => [f]
 
@@ -154,6 +189,7 @@ structure SS where
   impl : List (RecvOp × Recv) := []       -- oldest first
   notes : List String := []
   bad : Option String := none
+  unitsAreItems : Bool := true            -- so far every payload reported as many scraped units as items (`UnitsAreItems`)
 
 def scrapeHandler : Handler SS where
   init := {}
@@ -174,7 +210,11 @@ def scrapeHandler : Handler SS where
         let t : Tick := ⟨res, se = 1⟩
         let m := s.model.scrape ctrl.used t
         let scr := ",".intercalate ((List.range s.scrapers).map (fun i => s!"{m.scraped i}/{m.errored i}"))
-        ({ s with model := m, pending := some t }, [s!"obs cnt {showRecv m.recv} scr={scr} other=0 sink={t.count}"])
+        let uai := s.unitsAreItems && res.all (fun r => r.scraped == r.kept)
+        -- for logs both numbers are `LogRecordCount()` of the same payload
+        let s := if ctrl == Ctrl.logs && !uai && s.unitsAreItems
+          then { s with notes := s.notes ++ ["sig=C19/scraper/log-units-not-items a logs payload reported different scraped units and items"] } else s
+        ({ s with model := m, pending := some t, unitsAreItems := uai }, [s!"obs cnt {showRecv m.recv} scr={scr} other=0 sink={t.count}"])
       | _, _ => (s, ["obs bad-op"])
     | _, _ => (s, ["obs bad-op"])
   onObs := fun s toks =>
@@ -185,6 +225,14 @@ def scrapeHandler : Handler SS where
         -- the operation as the property sees it: own signal, items the next consumer actually received, its result
         let sinkN := (kvNat rest "sink").getD 0
         let s := if sinkN != t.count then { s with notes := s.notes ++ [s!"sig=C19/scraper/forwarded-not-kept kept={t.count} received={sinkN}"] } else s
+        -- cross-balance (`C19_scraper_cross_balance`) on the implementation's counters, whenever its hypothesis holds
+        -- (always for logs; for metrics only while every metric carried exactly one point — watch point otherwise)
+        let scrapedSum := ((kv rest "scr").bind (fun x => (x.splitOn ",").mapM parsePair)).map (fun l => (l.map (·.1)).sum)
+        let s := match scrapedSum with
+          | some tot =>
+            if s.unitsAreItems && tot != r.accepted ctrl.own + r.refused ctrl.own
+            then { s with notes := s.notes ++ [s!"sig=C19/scraper/scraped-not-accepted-plus-refused scraped={tot} counters={showRecv r}"] } else s
+          | none => { s with notes := s.notes ++ ["sig=C19/scraper/unparsable scr="] }
         { s with impl := s.impl ++ [(⟨ctrl.own, sinkN, t.sinkErr⟩, r)], pending := none }
       | _, _ => { s with bad := some "unparsable counters", pending := none }
     | [_, "timeout"], _ => { s with bad := some "timeout" }
@@ -270,105 +318,6 @@ def procHandler : Handler PS where
       | none => ["prop proc=FAIL sig=C19/processor/oracle-inconsistent"]
 
 
-/-! ## exporter clause: model `c19-exp` (trace of the C03 runner + counters read from the real meter provider) -/
-
-def xParseIds (s : String) : Option (List Nat) :=
-  if s = "-" then some [] else (s.splitOn ",").mapM String.toNat?
-
-structure XS where
-  persistent : Bool := false
-  evs : List OtelVerif.C19.XEv := []      -- reversed
-  lateAcc : List (List Nat) := []          -- accepted after the shutdown request
-  shutReq : Bool := false
-  stored : List Nat := []
-  impl : Option (Nat × Nat × Nat) := none
-  gauges : List (Int × Int × Option Int × Int) := []
-  gaugeMissing : Bool := false
-  skipped : Bool := false
-  bad : Option String := none
-
-def expHandler : Handler XS where
-  init := {}
-  onOp := fun s toks =>
-    match toks with
-    | "cfg" :: rest =>
-      match kvNat rest "persistent", kvNat rest "queue", kvNat rest "wfr" with
-      | some p, some _, some _ => ({ s with persistent := p == 1 }, [])
-      | _, _, _ => (s, ["obs bad-op"])
-    | ["act", at_, "shutdown"] => if at_.toNat?.isSome then (s, []) else (s, ["obs bad-op"])
-    | ["act", at_, "send", rid, n] =>
-      if at_.toNat?.isSome && rid.toNat?.isSome && n.toNat?.isSome then (s, []) else (s, ["obs bad-op"])
-    | ["backend", i, d, o] =>
-      if i.toNat?.isSome && d.toNat?.isSome && o.toNat?.isSome then (s, []) else (s, ["obs bad-op"])
-    | _ => (s, ["obs bad-op"])
-  onObs := fun s toks =>
-    match toks with
-    | ["tr", "acc", _, ids] =>
-      match xParseIds ids with
-      | some is => { s with evs := .acc is :: s.evs, lateAcc := if s.shutReq then is :: s.lateAcc else s.lateAcc }
-      | none => { s with bad := some "acc" }
-    | ["tr", "rej", _, ids] =>
-      match xParseIds ids with
-      | some is => { s with evs := .rej is :: s.evs }
-      | none => { s with bad := some "rej" }
-    | ["tr", "es", c, ids] =>
-      match c.toNat?, xParseIds ids with
-      | some c, some is => { s with evs := .es c is :: s.evs }
-      | _, _ => { s with bad := some "es" }
-    | ["tr", "ee", c, f] =>
-      match c.toNat?, f.toNat? with
-      | some c, some f => { s with evs := .ee c (f == 1) :: s.evs }
-      | _, _ => { s with bad := some "ee" }
-    | ["tr", "shutreq"] => { s with shutReq := true }
-    | ["tr", "stored", ids] =>
-      match xParseIds ids with
-      | some is => { s with stored := is }
-      | none => { s with bad := some "stored" }
-    | ["tr", "gauge", "missing"] => { s with gaugeMissing := true }
-    | "tr" :: "gauge" :: rest =>
-      match kvInt rest "size", kvInt rest "cap", kv rest "expsize", kvInt rest "expcap" with
-      | some sz, some cp, some es, some ec => { s with gauges := (sz, cp, es.toInt?, ec) :: s.gauges }
-      | _, _, _, _ => { s with bad := some "gauge" }
-    | "tr" :: "builderr" :: _ => { s with skipped := true }
-    | "tr" :: _ => s
-    | "obs" :: "counters" :: rest =>
-      match kvNat rest "sent", kvNat rest "failed", kvNat rest "enq" with
-      | some a, some b, some c => { s with impl := some (a, b, c) }
-      | _, _, _ => { s with bad := some "counters" }
-    | _ => s
-  onEnd := fun s =>
-    if s.skipped then ["obs skipped"] else
-    match s.bad with
-    | some b => [s!"obs unparsable {b}", s!"prop exporter=FAIL sig=C19/exporter/unparsable {b}"]
-    | none =>
-      let t := s.evs.reverse
-      let p := OtelVerif.C19.predict t
-      let obs := s!"obs counters sent={p.sent} failed={p.failed} enq={p.enqFailed}"
-      let attempted : Nat → Bool := fun x => (OtelVerif.C19.callsOf t).any (fun c => c.2.contains x)
-      let given := (t.map (fun e => match e with | .acc is => is.length | .rej is => is.length | _ => 0)).sum
-      let stuckLate := if s.persistent then 0 else ((s.lateAcc.flatMap id).filter (fun x => !attempted x)).length
-      let stored := if s.persistent then s.stored.length else 0
-      let dblKept := if s.persistent then (s.stored.filter attempted).length else 0
-      let dblWfr := ((t.flatMap (fun e => match e with | .rej is => is | _ => [])).filter attempted).length
-      let pBal := match s.impl with
-        | none => "prop balance=FAIL sig=C19/exporter/no-counters"
-        | some (a, b, c) =>
-          let lhs := a + b + c
-          let rhs := given - stuckLate - stored
-          if lhs = rhs then "prop balance=ok"
-          else if lhs = rhs + dblKept + dblWfr then
-            if dblKept > 0 then s!"prop balance=FAIL sig=C19/exporter/shutdown-interrupted-counted-and-still-stored sent={a} failed={b} enq={c} given={given} stored={stored} twice={dblKept}"
-            else s!"prop balance=FAIL sig=C19/exporter/wait-for-result-error-counted-send-failed-and-enqueue-failed sent={a} failed={b} enq={c} given={given} twice={dblWfr}"
-          else s!"prop balance=FAIL sig=C19/exporter/imbalance sent={a} failed={b} enq={c} given={given} stored={stored} stucklate={stuckLate}"
-      let badGauge := s.gauges.find? (fun g => g.2.1 != g.2.2.2 || (match g.2.2.1 with | some e => g.1 != e | none => false))
-      let pGauge := match s.gaugeMissing, badGauge with
-        | true, _ => "prop gauges=FAIL sig=C19/exporter/gauge-missing"
-        | false, some g =>
-          if g.2.1 != g.2.2.2 then s!"prop gauges=FAIL sig=C19/exporter/capacity-gauge-not-configured-capacity got={g.2.1} want={g.2.2.2}"
-          else s!"prop gauges=FAIL sig=C19/exporter/size-gauge-not-queue-size got={g.1} want={g.2.2.1.getD 0}"
-        | false, none => "prop gauges=ok"
-      [obs, pBal, pGauge]
-
 /-- the handlers of the receiver / scraper / processor clauses -/
 def handlers : List (String × IO Unit) :=
   [("c19-recv", run recvHandler), ("c19-scrape", run scrapeHandler), ("c19-proc", run procHandler)]
@@ -377,5 +326,5 @@ end OtelVerif.Drivers.C19
 
 def main : IO UInt32 :=
   runMulti (OtelVerif.Drivers.C19.handlers ++ [
-    ("c19-exp", run OtelVerif.Drivers.C19.expHandler)
+    ("c19-exp", run OtelVerif.Drivers.C19Exp.expHandler)
   ])
